@@ -187,6 +187,36 @@ Definition xml_class (n : node) : enc_out :=
   | NMap l => if forallb (fun kv => is_scalar (fst kv) && xml_elem_ok (snd kv)) l then EncOk true else EncErr
   end.
 
+(* encoder_json.go / candidate_node GetValueRep: a !!int must parse as an integer, a !!float as a
+   float that JSON can hold: .inf / .nan (any YAML spelling) and non-numeric text are an error *)
+Definition is_digit (c : N) : bool := (48 <=? c) && (c <=? 57).
+Definition is_hexdigit (c : N) : bool := is_digit c || ((97 <=? lower c) && (lower c <=? 102)).
+Definition strip_sign (v : str) : str := match v with 43 :: r => r | 45 :: r => r | _ => v end.
+Definition int_text_ok (v : str) : bool :=
+  match strip_sign v with
+  | 48 :: 120 :: (_ :: _) as r => forallb is_hexdigit r
+  | 48 :: 111 :: (_ :: _) as r => forallb (fun c => (48 <=? c) && (c <=? 55)) r
+  | (_ :: _) as r => forallb (fun c => is_digit c || (c =? 95)) r
+  | [] => false
+  end.
+Definition float_text_nonfinite (v : str) : bool :=
+  let l := List.map lower (strip_sign v) in
+  str_eqb l [46; 105; 110; 102] || str_eqb l [46; 110; 97; 110].
+Definition float_text_ok (v : str) : bool :=
+  negb (float_text_nonfinite v) &&
+  match strip_sign v with
+  | c :: _ => is_digit c || (c =? 46)
+  | [] => false
+  end.
+Fixpoint json_values_ok (n : node) : bool :=
+  match n with
+  | NScalar TagInt v => int_text_ok v
+  | NScalar TagFloat v => float_text_ok v
+  | NScalar _ _ => true
+  | NSeq l => forallb json_values_ok l
+  | NMap l => forallb (fun kv => json_values_ok (snd kv)) l
+  end.
+
 Definition scalar_only_class (n : node) : enc_out := if is_scalar n then EncOk true else EncErr.
 Definition string_only_class (n : node) : enc_out :=
   match n with NScalar TagStr _ => EncOk true | _ => EncErr end.
@@ -200,7 +230,9 @@ Definition enc_class (fid : N) (nul : bool) (n : node) : enc_out :=
     else if fid =? id_XMLFormat then xml_class n
     else if fid =? id_TomlFormat then scalar_only_class n
     else if (fid =? id_Base64Format) || (fid =? id_UriFormat) then string_only_class n
-    else if (fid =? id_JSONFormat) || (fid =? id_PropertiesFormat) || (fid =? id_ShellVariablesFormat)
+    else if fid =? id_JSONFormat
+         then if json_values_ok n then EncOk (negb (has_complex_key n)) else EncErr
+    else if (fid =? id_PropertiesFormat) || (fid =? id_ShellVariablesFormat)
          then EncOk (negb (has_complex_key n))     (* a non-scalar key is printed as an empty name or dropped *)
     else EncOk true in
   base.
